@@ -177,3 +177,6 @@ def check(ctx):
     # ---------------- (e) the event-time monitors of different cells are distinct pooled monitors (shared with C15.f / C15.h)
     ctx.import_clauses("C15", {"C15.f", "C15.h"}, "C18.e", minimum=4,
                        pick=lambda s: s.startswith(("DelayAdjusted", "Kernel", "Observable", "alias", "MonitorPool")))
+    # ---------------- (f) reward modulation block of the delay-adjusted three-factor trainers
+    from .. import reward_tail
+    reward_tail.check(ctx, "C18.f", only=("DelayAdjustedMSTDP", "DelayAdjustedMSTDPD"))
